@@ -450,6 +450,8 @@ def fortran_literals(em):
         for sub in ("evaluate_barycentric", "evaluate_barycentric_multi", "evaluate_cartesian_multi"):
             if sub in types:
                 em.string("f90_triangle_%s_binom_type" % sub, "int32" if types[sub].startswith("integer") else "real")
+            else:
+                em.problem("f90 binom type: no declaration of binom_val found in triangle.f90 subroutine %s" % sub)
     except Exception as exc:  # noqa
         em.problem("f90 binom type: %r" % (exc,))
 
